@@ -5,7 +5,7 @@ package c33
 // cheque amount that runs next to a PublishHeader goroutine is reported, including
 // ReceiveCheque's plain pointer store.
 func raceRestrictKnown(rs restrict) restrict {
-	if known(sigTorn) {
+	if known(sigRace) {
 		rs.recvAfter = true
 	}
 	return rs
